@@ -14,7 +14,7 @@ from ..cfg import CFG
 from ..errors import AnalysisError
 from ..model import FuncInfo, dotted, src, walk_scope
 from ..report import Context
-from ..util import return_leaves, attr_store_sites, calls_in, exactly_once_between, is_self_attr, node_for, normaliser, parse_expr, path_text, returns_of
+from ..util import kwarg, return_leaves, attr_store_sites, calls_in, exactly_once_between, is_self_attr, node_for, normaliser, parse_expr, path_text, returns_of
 
 LEVEL_TEXT = (
     "Static analysis of /repo's source (no execution): decides the structural clauses of C09 - "
@@ -301,7 +301,8 @@ def r2_rl_bootstrap(ctx: Context, product_decided: bool = False) -> None:
     ctx.check(arg_ok, "R2.index-store", "RLScheduler.__init__:helper-arg", "the helper receives the `samplers` parameter",
               f"helper called with {src(unpack.value)}", init, unpack)
     sup = [c for c in calls_in(init.node) if isinstance(c.func, ast.Attribute) and c.func.attr == "__init__" and isinstance(c.func.value, ast.Call) and dotted(c.func.value.func) == "super"]
-    ok = bool(sup) and sup[0].args and isinstance(sup[0].args[0], ast.Name) and sup[0].args[0].id == seq_name
+    first = (sup[0].args[0] if sup[0].args else kwarg(sup[0], "samplers")) if sup else None      # positional or by keyword
+    ok = isinstance(first, ast.Name) and first.id == seq_name
     ctx.check(ok, "R2.index-store", "RLScheduler.__init__:super-arg",
               "the sequence returned by the helper is the one handed to BaseScheduler.__init__",
               "BaseScheduler.__init__ does not receive the helper's sequence (index and sequence disagree)", init, sup[0] if sup else init.node)
